@@ -494,10 +494,17 @@ func c20(r *Report, s *Sem) {
 			}
 			for _, l := range leaves(c.Common().Args[1]) {
 				al, ok := stripConv(l).(*ssa.Alloc)
-				if !ok || namedOf(al.Type()) == nil || namedOf(al.Type()).Obj().Name() != k.adapter {
+				if !ok || namedOf(al.Type()) == nil || p.Type(k.adapter) == nil || namedOf(al.Type()).Obj() != p.Type(k.adapter).Obj() {
 					continue
 				}
-				ps, hs := storesInto(al, "predicate"), storesInto(al, "handlerFunc")
+				pn, hn := "predicate", "handlerFunc"
+				if f := p.Field(k.adapter, "predicate"); f != nil {
+					pn = f.Name()
+				}
+				if f := p.Field(k.adapter, "handlerFunc"); f != nil {
+					hn = f.Name()
+				}
+				ps, hs := storesInto(al, pn), storesInto(al, hn)
 				if len(ps) == 1 && len(hs) == 1 && stripConv(ps[0].Val) == ssa.Value(regF.Params[1]) && stripConv(hs[0].Val) == ssa.Value(regF.Params[2]) {
 					okWrap = true
 				}
